@@ -14,17 +14,19 @@ current thread hold mdib_lock". A hook (`Tracer.on_event`) may block – that is
 """
 from __future__ import annotations
 
+import os
 import sys
 import threading
-import types
 
-sys.path.insert(0, '/repo')
+REPO = os.environ.get('VERIF_REPO', '/repo')   # mutation experiments run against a copy of the repository
+if REPO not in sys.path:
+    sys.path.insert(0, REPO)
 
 import sdc11073.definitions_sdc  # noqa: F401,E402  (protocol registry must exist before an MDIB is loaded)
 from sdc11073.definitions_sdc import SdcV1Definitions  # noqa: E402
 from sdc11073.dispatch.request import RequestData  # noqa: E402
 
-TESTS = '/repo/tests/'
+TESTS = REPO + '/tests/'
 MDIB_SINGLE = '70041_MDIB_Final.xml'
 MDIB_TWO = 'mdib_two_mds.xml'
 MDIB_MULTI = '70041_MDIB_multi.xml'
@@ -101,24 +103,51 @@ class Bench:
 # Part 2: tracing
 # ------------------------------------------------------------------------------------------------------------
 
-SHARED_ATTRS = ('mdib_version', 'sequence_id', 'instance_id', 'mdib_version_group', 'descriptions', 'states',
-                'context_states', 'mdstate_version', 'mddescription_version')
-VERSION_ATTRS = ('mdib_version', 'sequence_id', 'instance_id', 'mdib_version_group')
+VERSION_ATTRS = ('mdib_version', 'sequence_id', 'instance_id', 'mdstate_version', 'mddescription_version')
+TABLES = ('descriptions', 'states', 'context_states')
+TABLE_WRITERS = ('add_object', 'add_object_no_lock', 'add_objects', 'add_objects_no_lock', 'remove_object',
+                 'remove_object_no_lock', 'remove_objects', 'remove_objects_no_lock', 'update_object',
+                 'update_object_no_lock', 'update_objects', 'update_objects_no_lock', 'clear')
 
 
 class Tracer:
-    """Collects events of the traced thread(s): ('acq'|'rel', depth_after) and ('rd', what, holds_lock)."""
+    """Collects events (thread name, kind, what, holds_mdib_lock).
+
+    kinds: 'before-acq' / 'acq' / 'rel' (outermost level of a traced lock only), 'rdV' / 'wrV' (version members),
+    'rdC' / 'wrC' (tables; what = table name or 'descriptor-object' for an in-place update of a descriptor),
+    'deref' (serialisation of a container = read of object content; what = 'descriptor' | 'state').
+    `on_event(kind, what, holds)` runs in the acting thread and may block: that is how schedules are forced.
+    """
 
     def __init__(self):
         self.events = []
         self.enabled = False
-        self.on_event = None        # callable(kind, what, holds) run in the acting thread; may block
+        self.on_event = None
+        self.mdib_lock = None
+        self.locks = {}
         self._suspend = threading.local()
 
-    def emit(self, kind, what, holds):
+    def holds(self):
+        return self.mdib_lock is not None and self.mdib_lock.held_by_me()
+
+    def suspended(self):
+        """context manager: nothing the current thread does is reported"""
+        tracer = self
+
+        class _S:
+            def __enter__(self):
+                self.prev = getattr(tracer._suspend, 'on', False)  # noqa: SLF001
+                tracer._suspend.on = True  # noqa: SLF001
+
+            def __exit__(self, *exc):
+                tracer._suspend.on = self.prev  # noqa: SLF001
+        return _S()
+
+    def emit(self, kind, what=''):
         if not self.enabled or getattr(self._suspend, 'on', False):
             return
-        self.events.append((threading.get_ident(), kind, what, holds))
+        holds = self.holds()
+        self.events.append((threading.current_thread().name, kind, what, holds))
         if self.on_event is not None:
             self._suspend.on = True
             try:
@@ -127,11 +156,11 @@ class Tracer:
                 self._suspend.on = False
 
 
-class TracedRLock:
-    """Re-entrant lock that reports acquire / release (with the nesting depth) to a tracer."""
+class TracedLock:
+    """Lock / RLock stand-in that reports the outermost acquire / release of the owning thread."""
 
-    def __init__(self, tracer, name='mdib_lock'):
-        self._lock = threading.RLock()
+    def __init__(self, tracer, name, reentrant=True):
+        self._lock = threading.RLock() if reentrant else threading.Lock()
         self._tracer = tracer
         self._owner = None
         self._depth = 0
@@ -141,15 +170,15 @@ class TracedRLock:
         return self._owner == threading.get_ident()
 
     def acquire(self, blocking=True, timeout=-1):
-        # the yield point lies *before* the acquisition (the hook may run other threads to completion)
-        if not self.held_by_me():
-            self._tracer.emit('before-acq', self.name, False)
+        mine = self.held_by_me()
+        if not mine:
+            self._tracer.emit('before-acq', self.name)   # yield point before the thread may block
         ok = self._lock.acquire(blocking, timeout)
         if ok:
             self._owner = threading.get_ident()
             self._depth += 1
             if self._depth == 1:
-                self._tracer.emit('acq', self.name, True)
+                self._tracer.emit('acq', self.name)
         return ok
 
     def release(self):
@@ -159,9 +188,10 @@ class TracedRLock:
             self._owner = None
         self._lock.release()
         if outer:
-            self._tracer.emit('rel', self.name, False)
+            self._tracer.emit('rel', self.name)
 
-    __enter__ = acquire
+    def __enter__(self):
+        return self.acquire()
 
     def __exit__(self, *exc):
         self.release()
@@ -170,9 +200,9 @@ class TracedRLock:
 class _TracedIndex:
     """Wraps one `IndexDefinition` (a dict): reads are reported, everything else is passed through."""
 
-    def __init__(self, idx, table_name, tracer, lock):
+    def __init__(self, idx, table_name, tracer):
         object.__setattr__(self, '_idx', idx)
-        object.__setattr__(self, '_rd', lambda: tracer.emit('rd', table_name, lock.held_by_me()))
+        object.__setattr__(self, '_rd', lambda: tracer.emit('rdC', table_name))
 
     def get(self, *a, **k):
         self._rd()
@@ -215,56 +245,124 @@ class _TracedIndex:
 
 
 def install_tracing(mdib, tracer=None):
-    """Replace `mdib.mdib_lock` by a TracedRLock and make reads of the shared MDIB data observable.
+    """Make the shared MDIB data of `mdib` observable; returns the tracer.
 
-    Returns (tracer, lock). Writers (transactions) use the same replaced lock object, so mutual exclusion is the
-    library's own; only the *observation* is added.
+    * `mdib.mdib_lock` / `mdib._tr_lock` are replaced by TracedLocks (mutual exclusion stays the interpreter's own),
+    * the MDIB object gets a traced subclass: reads / writes of the version members are reported,
+    * each table gets a traced subclass: `objects`, index access (via `__getattr__`) and the mutators are reported,
+    * `ContainerBase.update_node` (serialisation of a descriptor / state object) is reported as 'deref'
+      (class level patch, active while `tracer.enabled`).
     """
+    from sdc11073.mdib import containerbase
     tracer = tracer or Tracer()
-    lock = TracedRLock(tracer)
-    # tables: traced subclass per table instance (objects property + index access through __getattr__)
-    for table_name in ('descriptions', 'states', 'context_states'):
+    lock = TracedLock(tracer, 'mdib_lock', reentrant=True)
+    tracer.mdib_lock = lock
+    tracer.locks['mdib_lock'] = lock
+    for table_name in TABLES:
         table = getattr(mdib, table_name)
         base = type(table)
+        ns = {}
 
         def _objects(self, _n=table_name, _b=base):
-            tracer.emit('rd', _n, lock.held_by_me())
+            tracer.emit('rdC', _n)
             return _b.objects.fget(self)
+        ns['objects'] = property(_objects)
 
         def _getattr(self, name, _n=table_name, _b=base):
-            idx = _b.__getattr__(self, name)
-            return _TracedIndex(idx, _n, tracer, lock)
-        traced = type('Traced' + base.__name__, (base,), {'objects': property(_objects), '__getattr__': _getattr})
-        table.__class__ = traced
+            return _TracedIndex(_b.__getattr__(self, name), _n, tracer)
+        ns['__getattr__'] = _getattr
+        for meth in TABLE_WRITERS:
+            if hasattr(base, meth):
+                def _w(self, *a, _m=meth, _n=table_name, _b=base, **k):
+                    tracer.emit('wrC', _n)
+                    # the library's own implementation; nested mutator calls are reported again (merged later)
+                    return getattr(_b, _m)(self, *a, **k)
+                ns[meth] = _w
+        table.__class__ = type('Traced' + base.__name__, (base,), ns)
     base_mdib = type(mdib)
 
     def _getattribute(self, name, _b=base_mdib):
-        if name in VERSION_ATTRS or name in ('mdstate_version', 'mddescription_version'):
-            if name != 'mdib_version_group':  # the property reads the three members itself (reported there)
-                tracer.emit('rd', 'version', lock.held_by_me())
+        if name in VERSION_ATTRS:
+            tracer.emit('rdV', name)
         return _b.__getattribute__(self, name)
-    mdib.__class__ = type('Traced' + base_mdib.__name__, (base_mdib,), {'__getattribute__': _getattribute})
+
+    def _setattr(self, name, value, _b=base_mdib):
+        if name in VERSION_ATTRS:
+            tracer.emit('wrV', name)
+        return _b.__setattr__(self, name, value)
+    mdib.__class__ = type('Traced' + base_mdib.__name__, (base_mdib,), {'__getattribute__': _getattribute,
+                                                                       '__setattr__': _setattr})
     mdib.mdib_lock = lock
-    return tracer, lock
+    if hasattr(mdib, '_tr_lock'):
+        mdib._tr_lock = TracedLock(tracer, 'tr_lock', reentrant=False)  # noqa: SLF001
+        tracer.locks['tr_lock'] = mdib._tr_lock  # noqa: SLF001
+    if not getattr(containerbase.ContainerBase, '_verif_traced', False):
+        from sdc11073.mdib import descriptorcontainers
+        orig = containerbase.ContainerBase.update_node
+
+        def update_node(self, *a, **k):
+            tr = _ACTIVE_TRACER[0]
+            if tr is not None:
+                tr.emit('deref', 'descriptor' if getattr(self, 'is_descriptor_container', False) else 'state')
+            return orig(self, *a, **k)
+        containerbase.ContainerBase.update_node = update_node
+        # descriptor objects in the table are updated in place by descriptor transactions: a write of the description
+        dcls = descriptorcontainers.AbstractDescriptorContainer
+        for meth in ('update_from_other_container', 'increment_descriptor_version'):
+            o = getattr(dcls, meth)
+
+            def _w(self, *a, _o=o, **k):
+                tr = _ACTIVE_TRACER[0]
+                if tr is not None:
+                    tr.emit('wrC', 'descriptor-object')
+                return _o(self, *a, **k)
+            setattr(dcls, meth, _w)
+        containerbase.ContainerBase._verif_traced = True  # noqa: SLF001
+    _ACTIVE_TRACER[0] = tracer
+    return tracer
 
 
-def collapse(events, thread_id=None):
-    """Event list -> action list of the model: acq, rel, rdC (table read), rdV (version read).
+_ACTIVE_TRACER = [None]
 
-    Re-entrant inner acquire/release pairs are not reported by TracedRLock at all (depth > 1), consecutive reads of
-    the same kind inside the same lock state are merged (the model's read actions are idempotent observations).
+LOCK_IDS = {'mdib_lock': 0, 'tr_lock': 1}
+
+
+def to_actions(events, thread_id=None):
+    """Event list -> action list of the Lean model (`Sdc.LockLts.Act`).
+
+    Normalisation (so that the program does not depend on how many attribute reads / objects an implementation
+    touches): re-entrant inner acquire/release pairs never show up (TracedLock reports the outermost level only);
+    within a run of read-type events (rdV, rdC, deref) that is not interrupted by a lock operation or a write, every
+    kind is kept once, in order of first occurrence (in the model a repeated read in the same lock state without an
+    own write in between observes the same value); consecutive writes of one kind are merged. Everything that concerns
+    the description (table `descriptions`, descriptor objects) becomes `rdD` / `wrD k`, state tables `rdC` / `wrC k`,
+    serialisation of state objects `deref`; k = number of the write burst (every burst installs a new content).
     """
     out = []
+    seen = set()
+    n_wr = 0
     for tid, kind, what, _holds in events:
         if thread_id is not None and tid != thread_id:
             continue
         if kind == 'before-acq':
             continue
         if kind in ('acq', 'rel'):
-            out.append(kind)
-        else:
-            act = 'rdV' if what == 'version' else 'rdC'
-            if out and out[-1] == act:
+            out.append(f'{kind} {LOCK_IDS[what]}')
+            seen = set()
+            continue
+        act = {'rdV': 'rdV', 'rdC': 'rdC', 'deref': 'deref', 'wrV': 'incV', 'wrC': 'wrC'}[kind]
+        # the description (descriptions table, descriptor objects) is content that is read / written by value
+        if what in ('descriptions', 'descriptor', 'descriptor-object'):
+            act = {'rdC': 'rdD', 'deref': 'rdD', 'wrC': 'wrD'}.get(act, act)
+        if act in ('incV', 'wrC', 'wrD'):
+            seen = set()
+            if out and out[-1].split()[0] == act:
                 continue
+            if act in ('wrC', 'wrD'):
+                n_wr += 1
+                act = f'{act} {n_wr}'
+            out.append(act)
+        elif act not in seen:
+            seen.add(act)
             out.append(act)
     return out
